@@ -1,4 +1,5 @@
 import PcfgVerif.Properties.EditCore
+import PcfgVerif.Generated.CliOptions
 import PcfgVerif.Generated.EditFs
 import PcfgVerif.Model.ExpandSpec
 /-!
@@ -98,5 +99,20 @@ theorem C20_only_grammar_written :
       w == ("shutil.copytree", "") || w == ("open-write", "Grammar/grammar.txt")) = true ∧
     (Generated.EditFs.writes.filter fun w => w.1 == "open-write").length = 1 ∧
     Generated.EditFs.retargetsToCopy = true := by decide
+
+/-- **the filters `edit_rules` applies are the ones typed** (option glue of `edit_rules.py`, regenerated from the source): the
+bounds are `int()` of the typed values, the terminal set is the comma-separated list upper-cased, and `--regex` is split at commas
+into the list of expressions `check_regex` requires *all* of - each expression passed on as typed -/
+theorem C20_cli_passes_filters :
+    Generated.CliOptions.editAssign =
+      [("parse_command_line", "rule", "args.rule"),
+       ("parse_command_line", "copy", "args.copy"),
+       ("parse_command_line", "min_length", "int(args.min_length)"),
+       ("parse_command_line", "max_length", "int(args.max_length)"),
+       ("parse_command_line", "terminal_set", "[x.upper() for x in args.terminal_set.split(',')]"),
+       ("parse_command_line", "terminal_set", "False"),
+       ("parse_command_line", "regex", "[x for x in args.regex.split(',')]")] ∧
+    Generated.CliOptions.editOptions.map (·.1) = ["--rule", "--copy", "--min_length", "--max_length", "--terminal_set", "--regex"] := by
+  decide
 
 end Pcfg.C20
